@@ -461,6 +461,24 @@ def run(ctx):
         bad = _validate(ctx, tmp, recs, "trace validation Discovery_Trace")
         for r, pos, prop, *extra in bad:
             ctx.violation(_explain(r, pos, prop) + (" - " + extra[0] if extra else ""), {"kind": "trace", "record": r, "position": pos, "property": prop})
+        # ---------------- a fourth pairing situation: a pairing that was shut down but is still loaded (mDNS transports).
+        # Records for its id keep arriving; the callback must not raise and waiters must be woken (scenario shared with
+        # the zeroconf life-cycle extension, harness/props/extzc.py).
+        try:
+            from harness.props import extzc as _X
+            jobs_s = [(f"sd-{tr}-{int(sb)}-{via}", tr, sb, via) for tr in ("ip", "coap") for sb in (False, True)
+                      for via in ("direct", "browser")]
+            with mp.get_context("fork").Pool(min(8, os.cpu_count() or 4)) as pool:
+                srecs = pool.map(_X._shutdown_scenario, jobs_s, chunksize=1)
+        except ImportError:
+            srecs = []
+        ctx.notes["shutdown_pairing_scenarios"] = len(srecs)
+        for r in srecs:
+            ctx.case(json.dumps(r["events"], sort_keys=True))
+        for r, pos, prop, *extra in _validate(ctx, tmp, srecs, "records for shut-down pairings (Discovery_Trace)") if srecs else []:
+            ev = r["events"][pos - 1] if 0 < pos <= len(r["events"]) else {}
+            ctx.violation(f"shut-down pairing, {r['id']}: " + _explain(r, pos, prop) + (f" [{ev.get('exc')}]" if ev.get("exc") else ""),
+                          {"kind": "trace", "record": r, "position": pos, "property": prop})
         bad_ids = {b[0]["id"] for b in bad}
         for src in ("behaviour", "random", "parse", "encauth"):
             for r in recs:
